@@ -81,18 +81,19 @@ def type_region(t, env, tagdefault=None):
         k = x["k"]
         if k == "REF" and _bare_string_alias(env[x["name"]], env): return "F111"   # 8 bits per character
         if k == "CHOICE" and _ext_alts_unordered(x, env, tagdefault): return "illegal-module:ext-alternatives-not-in-tag-order"
-        if k == "INTEGER":
-            c = x.get("cons")
-            if c and c["ext"] and c["lo"] is None: return "F94"      # (MIN..ub,...) loses its extension bit (C09)
-        # SIZE(lb..MAX,...) (former F112 region) and permitted alphabets whose largest character value is exactly
-        # 2^b (former F114 region) are compared like any other type
+        # SIZE(lb..MAX,...) (former F112 region), permitted alphabets whose largest character value is exactly 2^b (former F114
+        # region) and INTEGER (MIN..ub,...) (former F94 region) are compared like any other type
     return None
 
 def value_region(t, v, env, tagdefault=None):
     """finding id of a value-dependent deviation region hit by value v of type t, or None"""
     k = t["k"]
     if k == "REF": return value_region(env[t["name"]], v, env, tagdefault)
-    if k == "INTEGER": return None
+    if k == "INTEGER":
+        c = t.get("cons")
+        # (MIN..ub, ...): the table has the extension bit (F94 repaired) but no upper bound to test against
+        if c and c["ext"] and c["lo"] is None and c["hi"] is not None and v > c["hi"]: return "F96"
+        return None
     if k in KM7:
         sz = t.get("size")
         if sz and sz["ext"] and not genmod.in_cons(sz, len(v)): return "F113"     # 8-bit characters outside the root
@@ -211,7 +212,8 @@ def fixed_module(rng, quick=True):
     for i, (lo, hi, ext) in enumerate([(1, 2, False), (1, 3, False), (1, 4, False), (1, 5, False), (0, 15, False), (0, 16, False), (-1, 0, False),
                                         (0, 31, True), (0, 32, True), (-3, 4, True), (10, 10, True), (0, (1 << 32) - 1, True), (0, 1 << 32, False),
                                         (0, (1 << 62), False), (1, (1 << 31), False), (0, None, True), (None, 5, False),
-                                        (5, None, False), (-5, None, False), (1, None, True), (-129, None, True)]):   # semi-constrained, lb != 0 (F42 / F110 repaired)
+                                        (5, None, False), (-5, None, False), (1, None, True), (-129, None, True),   # semi-constrained, lb != 0 (F42 / F110 repaired)
+                                        (None, 5, True), (None, -1, True)]):    # no lower bound, extensible: the extension bit (F94 repaired; above ub: F96)
         c = cons(lo, hi, ext)
         vs = sorted(v for v in genmod.int_boundaries(c) if genmod.in_cons(c, v) or ext)
         if lo is not None and lo >= 0: vs = [v for v in vs if v >= 0]
@@ -291,6 +293,13 @@ def _w(fid, what, module, type_, op, expect, matcher, x691):
             "matcher": matcher, "lean_reference": "Asn1c.Props.C02Uper.ref_%s_witness" % fid if fid in ("F111", "F113", "F28") else None}
 
 PROPOSED_FINDINGS = [
+    _w("F96", "UPER: an extensible INTEGER constraint without lower bound, INTEGER (MIN..ub, ...), is emitted as "
+              "{ APC_UNCONSTRAINED | APC_EXTENSIBLE, -1, -1, 0, 0 } (the extension bit of X.691 13.1 is there since the repair of F94) but "
+              "asn_per_constraint_t cannot say 'upper bound only', so INTEGER_encode_uper never finds a value outside the root: a value "
+              "above ub is written with extension bit 0 instead of 1 (the rest - the unconstrained whole number - is the same; the decoder "
+              "accepts both)",
+       "M DEFINITIONS ::= BEGIN T ::= INTEGER (MIN..5, ...) END", "T", "enc uper (int 7)", r"^ok 008380$",
+       "syntax == uper and an INTEGER value above the upper bound of an extensible constraint without lower bound", "ok 808380"),
     _w("F111", "UPER: a type assignment that merely references an unconstrained known-multiplier string type gets no PER constraints "
                "(same family as F38/F46): T ::= GeneralizedTime / UTCTime (the time types are references to skeleton types), or B ::= A with "
                "A ::= IA5String / VisibleString / BMPString ...: the characters of T / B - and of every member, element or alternative of type "
